@@ -88,8 +88,25 @@ fn blocked_in_universe() -> BTreeSet<u8> {
     (0..N_SIG as u8).filter(|i| b.contains(&UNIVERSE[*i as usize].0)).collect()
 }
 
-fn live_source(st: &St) -> Option<Id> {
-    st.srcs.iter().find(|(_, s)| matches!(&s.k, K::Sig(k) if k.alive)).map(|(i, _)| *i)
+/// the Signals objects that exist (at most two, always with disjoint sets: what one signalfd
+/// reads the other cannot, so overlapping sets have no defined owner)
+fn live_sources(st: &St) -> Vec<Id> {
+    st.srcs.iter().filter(|(_, s)| matches!(&s.k, K::Sig(k) if k.alive)).map(|(i, _)| *i).collect()
+}
+
+/// signals configured in a live source other than `me`
+fn taken_by_others(st: &St, me: Id) -> BTreeSet<u8> {
+    let mut out = BTreeSet::new();
+    for (i, s) in st.srcs.iter() {
+        if *i != me {
+            if let K::Sig(k) = &s.k {
+                if k.alive {
+                    out.extend(k.configured.iter().copied());
+                }
+            }
+        }
+    }
+    out
 }
 
 pub fn begin_run(sim: &Sim) {
@@ -115,13 +132,7 @@ pub fn check(sim: &Sim, when: &'static str) {
     if !st.sig.used {
         return;
     }
-    let configured: BTreeSet<u8> = match live_source(&st) {
-        Some(id) => match &st.srcs.get(&id).unwrap().k {
-            K::Sig(k) => k.configured.clone(),
-            _ => BTreeSet::new(),
-        },
-        None => BTreeSet::new(),
-    };
+    let configured: BTreeSet<u8> = taken_by_others(&st, Id::MAX);
     let indet = st.srcs.values().any(|s| s.indeterminate && matches!(s.k, K::Sig(_)));
     let blocked = blocked_in_universe();
     let h = hits();
@@ -136,7 +147,7 @@ pub fn check(sim: &Sim, when: &'static str) {
         sim.violate(
             "signal.mask_mismatch",
             vec![if blocked.is_superset(&configured) { "left_blocked".into() } else { "not_blocked".into() }, when.into()],
-            format!("after {}: the thread blocks {{{}}} but the source is configured for {{{}}}", when, names(&blocked), names(&configured)),
+            format!("after {}: the thread blocks {{{}}} but the live Signals sources are configured for {{{}}}", when, names(&blocked), names(&configured)),
         );
         return;
     }
@@ -158,11 +169,14 @@ pub fn sig_new(sim: &Sim, id: Id, sigs: &[u8], script: &Script) {
     let Some(h) = sim.st.borrow().handle.clone() else { return };
     {
         let st = sim.st.borrow();
-        if st.srcs.contains_key(&id) || live_source(&st).is_some() {
-            return; // one Signals source at a time
+        if st.srcs.contains_key(&id) || live_sources(&st).len() >= 2 {
+            return; // at most two Signals sources at a time
         }
     }
     sim.st.borrow_mut().sig.used = true;
+    let taken = taken_by_others(&sim.st.borrow(), id);
+    let sigs: Vec<u8> = sigs.iter().copied().filter(|s| !taken.contains(s)).collect();
+    let sigs = &sigs[..];
     let list = to_signals(sigs);
     let Some(Ok(source)) = guarded(sim, "Signals::new", || Signals::new(&list)) else { return };
     let sh = WrapShared::new(id);
@@ -203,6 +217,12 @@ pub fn sig_change(sim: &Sim, id: Id, how: u8, sigs: &[u8]) {
     if in_proc {
         return;
     }
+    let taken = taken_by_others(&sim.st.borrow(), id);
+    if taken.iter().next().is_some() {
+        sim.probe("signals_two_sources_change");
+    }
+    let sigs: Vec<u8> = sigs.iter().copied().filter(|s| !taken.contains(s)).collect();
+    let sigs = &sigs[..];
     let list = to_signals(sigs);
     let r = guarded(sim, "signals change", || {
         let mut g = disp.as_source_mut();
@@ -252,9 +272,8 @@ pub fn raise(sim: &Sim, sig: u8, process_directed: bool) {
     }
     {
         let mut st = sim.st.borrow_mut();
-        let live = live_source(&st);
         let mut blocked = false;
-        if let Some(id) = live {
+        for id in live_sources(&st) {
             if let Some(K::Sig(k)) = st.srcs.get_mut(&id).map(|s| &mut s.k) {
                 if k.configured.contains(&sig) {
                     k.pending[sig as usize] |= if process_directed { 2 } else { 1 };
@@ -294,6 +313,9 @@ fn on_signal(id: Id, ev: calloop::signals::Event, tag: &mut Tag) {
                         // one instance consumed (which of the two the kernel hands out first is
                         // its business)
                         k.pending[i] &= k.pending[i] - 1;
+                        // an instance raised after this one was handed out (by the callback of
+                        // another source of the batch) was not pending at the wait
+                        k.pending_at_wait[i] &= k.pending[i];
                         let (pid, uid) = unsafe { (libc::getpid() as u32, libc::getuid()) };
                         if ev.pid() != pid || ev.uid() != uid {
                             viol = Some(("signal.wrong_info", format!("signal {:?} reported sender pid {} uid {}, expected {} {}", ev.signal(), ev.pid(), ev.uid(), pid, uid)));
